@@ -198,8 +198,24 @@ COLL = [
     ('IF_NONE on option of annotated pair', 'option (pair int nat)', [{'prim': 'IF_NONE', 'args': [[{'prim': 'NONE', 'args': [{'prim': 'int'}]}], [{'prim': 'CAR'}, {'prim': 'SOME'}]]}], []),
     ('IF_LEFT on union with annotated pair', 'or (pair int nat) string', [{'prim': 'IF_LEFT', 'args': [[{'prim': 'CDR'}, {'prim': 'SOME'}], [{'prim': 'DROP'}, {'prim': 'NONE', 'args': [{'prim': 'nat'}]}]]}], []),
     ('CONCAT of annotated components', 'pair string string', [{'prim': 'UNPAIR'}, {'prim': 'CONCAT'}], []),
+    # a value parsed under the annotated type against an equal value rebuilt at run time (PAIR n yields an annotation-free pair)
+    ('rebuild with UNPAIR 3 / PAIR 3 then COMPARE', 'pair int (pair nat string)', [{'prim': 'DUP'}, {'prim': 'UNPAIR', 'args': [{'int': '3'}]}, {'prim': 'PAIR', 'args': [{'int': '3'}]}, {'prim': 'COMPARE'}], []),
+    ('rebuild with a changed second leaf then COMPARE', 'pair int (pair nat string)',
+     [{'prim': 'DUP'}, {'prim': 'UNPAIR', 'args': [{'int': '3'}]}, {'prim': 'SWAP'}, PUSHN(1), {'prim': 'ADD'}, {'prim': 'SWAP'}, {'prim': 'PAIR', 'args': [{'int': '3'}]}, {'prim': 'COMPARE'}], []),
+    ('rebuilt key MEM in a singleton set', 'pair int (pair nat string)',
+     [{'prim': 'DUP'}, {'prim': 'UNPAIR', 'args': [{'int': '3'}]}, {'prim': 'PAIR', 'args': [{'int': '3'}]}, {'prim': 'SWAP'},
+      {'prim': 'EMPTY_SET', 'args': [{'prim': 'pair', 'args': [{'prim': 'int'}, {'prim': 'pair', 'args': [{'prim': 'nat'}, {'prim': 'string'}]}]}]},
+      {'prim': 'PUSH', 'args': [{'prim': 'bool'}, {'prim': 'True'}]}, {'prim': 'DIG', 'args': [{'int': '2'}]}, {'prim': 'UPDATE'}, {'prim': 'SWAP'}, {'prim': 'MEM'}], []),
+    ('rebuilt key with a changed second leaf inserted next to the parsed one', 'pair int (pair nat string)',
+     [{'prim': 'DUP'}, {'prim': 'UNPAIR', 'args': [{'int': '3'}]}, {'prim': 'SWAP'}, PUSHN(1), {'prim': 'ADD'}, {'prim': 'SWAP'}, {'prim': 'PAIR', 'args': [{'int': '3'}]}, {'prim': 'SWAP'},
+      {'prim': 'EMPTY_SET', 'args': [{'prim': 'pair', 'args': [{'prim': 'int'}, {'prim': 'pair', 'args': [{'prim': 'nat'}, {'prim': 'string'}]}]}]},
+      {'prim': 'PUSH', 'args': [{'prim': 'bool'}, {'prim': 'True'}]}, {'prim': 'DIG', 'args': [{'int': '2'}]}, {'prim': 'UPDATE'},
+      {'prim': 'PUSH', 'args': [{'prim': 'bool'}, {'prim': 'True'}]}, {'prim': 'DIG', 'args': [{'int': '2'}]}, {'prim': 'UPDATE'}, {'prim': 'SIZE'}], []),
     ('APPLY on a lambda with an annotated parameter pair', 'pair nat int', 'LAMBDA-APPLY', [], 'lambda'),
     ('EXEC of a lambda with an annotated parameter pair', 'pair nat int', 'LAMBDA-EXEC', [], 'lambda'),
+    ('PACK of an applied lambda with an annotated parameter pair', 'pair nat int', 'LAMBDA-APPLY-PACK', [], 'lambda'),
+    ('PACK of an applied lambda whose captured argument is an annotated pair', 'pair (pair nat int) string', 'LAMBDA-APPLY-PACK', [], 'lambda'),
+    ('PACK of a lambda with an annotated parameter pair', 'pair nat int', 'LAMBDA-PACK', [], 'lambda'),
 ]
 
 
@@ -250,7 +266,13 @@ def _coll_run(ty, src, ins, how, sym):
     if how == 'lambda':
         texpr = ty.as_micheline_expr()
         code = [{'prim': 'LAMBDA', 'args': [texpr, {'prim': 'nat'}, [{'prim': 'CAR'}]]}]
-        if ins == 'LAMBDA-APPLY':
+        if ins == 'LAMBDA-PACK':
+            code = [{'prim': 'LAMBDA', 'args': [texpr, {'prim': 'unit'}, [{'prim': 'DROP'}, {'prim': 'UNIT'}]]}, {'prim': 'PACK'}]
+        elif ins == 'LAMBDA-APPLY-PACK':
+            left = mich.strip_annots(texpr['args'][0])
+            lit = {'prim': 'Pair', 'args': [{'int': '1'}, {'int': '2'}]} if left.get('prim') == 'pair' else {'int': '1'}
+            code = [{'prim': 'LAMBDA', 'args': [texpr, {'prim': 'unit'}, [{'prim': 'DROP'}, {'prim': 'UNIT'}]]}, {'prim': 'PUSH', 'args': [left, lit]}, {'prim': 'APPLY'}, {'prim': 'PACK'}]
+        elif ins == 'LAMBDA-APPLY':
             code += [PUSHN(1), {'prim': 'APPLY'}, {'prim': 'PUSH', 'args': [{'prim': 'int'}, {'int': '5'}]}, {'prim': 'EXEC'}]
         else:
             code += [{'prim': 'PUSH', 'args': [mich.strip_annots(texpr), {'prim': 'Pair', 'args': [{'int': '3'}, {'int': '4'}]}]}, {'prim': 'EXEC'}]
